@@ -575,3 +575,72 @@ def ob_corpus(pid="C05", label="C05.e"):
     return vf.FN("%s corpus replay: every module shipped with CMake is processed to completion" % label, fn,
                  engine="concrete corpus replay through the real Documenter (supports C05.a-d; not a solver verdict)",
                  encodes=["cminx.documenter.Documenter.__init__/process"], symbolic="-", bound="the *.cmake files under /usr/share/cmake*/Modules")
+
+
+# ------------------------------------------------------------------------------------------------ C05.f valid-file witnesses (sizes)
+def ob_valid_witnesses(pid="C05", label="C05.f", big=False):
+    """z3 picks members of valid-file languages with a size constraint (nesting depth, bracket level, argument count, line length,
+    number of commands); each is run through the real cminx.main and must be processed to completion, documenting the last command.
+    Witness replay through the whole wiring (ANTLR runtime and error strategy included): supports C05.b-d beyond their depth bound D;
+    not exhaustive."""
+    def fn(work):
+        import subprocess, shutil
+        c = ctx(2)
+        q = c["q"]
+        t0, q0, n0 = time.time(), q.secs, q.n
+        word = plus(rng("a", "z"))
+        ident = cat(rng("a", "z"), star(alt(rng("a", "z"), chars("_"))))
+        nl = lit("\n")
+        sizes = dict(paren=(40, 300) if big else (40,), level=(3, 9, 40) if big else (3, 9), nargs=(60, 400) if big else (60,),
+                     line=(500, 5000) if big else (500,), ncmds=(80, 600) if big else (80,))
+        cases = []
+        for d in sizes["paren"]:
+            inner = word
+            for _ in range(d):
+                inner = cat(lit("("), inner, lit(")"))
+            cases.append(("parenthesised groups nested %d deep" % d, cat(ident, lit("(a "), inner, lit(")"), nl)))
+        for lv in sizes["level"]:
+            eq = "=" * lv
+            body = and_(star(alt(rng("a", "z"), chars(" ]\n"))), not_(cat(ALL, lit("]" + eq + "]"), ALL)))
+            cases.append(("bracket argument of level %d" % lv, cat(ident, lit("([" + eq + "["), body, lit("]" + eq + "])"), nl)))
+            cases.append(("bracket comment of level %d" % lv, cat(lit("#[" + eq + "["), body, lit("]" + eq + "]"), nl, ident, lit("()"), nl)))
+        for n in sizes["nargs"]:
+            cases.append(("%d arguments" % n, cat(ident, lit("("), word, cat(*[cat(lit(" "), word)] * (n - 1)), lit(")"), nl)))
+        for n in sizes["line"]:
+            cases.append(("quoted argument of %d characters" % n, cat(ident, lit('("'), cat(*[rng("a", "z")] * n), lit('")'), nl)))
+            cases.append(("line comment of %d characters" % n, cat(lit("#"), cat(*[rng("a", "z")] * n), nl, ident, lit("()"), nl)))
+        for n in sizes["ncmds"]:
+            cases.append(("%d commands" % n, cat(*[cat(ident, lit("("), word, lit(")"), nl)] * n)))
+        tmp = os.path.join(work, "valid")
+        shutil.rmtree(tmp, ignore_errors=True)
+        os.makedirs(tmp)
+        bad, unknown, samples = [], [], []
+        n = 0
+        for (name, lang) in cases:
+            # the last command of the file is a documented function: its entry must appear (nothing was skipped on the way)
+            full = cat(lang, lit("#[[[\n# d\n#]]\nfunction(last_fn x)\nendfunction()\n"))
+            res, w = q.witness(name, full)
+            if res != "sat":
+                unknown.append("%s: %s" % (name, res))
+                continue
+            n += 1
+            src = os.path.join(tmp, "v%d.cmake" % n)
+            out = os.path.join(tmp, "o%d" % n)
+            open(src, "w", encoding="utf-8").write(w)
+            p = subprocess.run([vf.PY, "-W", "ignore", "-c", "import sys; sys.setrecursionlimit(100000); import cminx; cminx.main([sys.argv[1], '-o', sys.argv[2]])", src, out],
+                               capture_output=True, text=True, timeout=600,
+                               env=dict(os.environ, PYTHONPATH=os.path.join(vf.REPO, "src"), XDG_CONFIG_HOME=os.path.join(work, "xdg")))
+            page = os.path.join(out, "v%d.rst" % n)
+            ok = p.returncode == 0 and os.path.exists(page) and ".. function:: last_fn(x)" in open(page, encoding="utf-8").read()
+            if not ok:
+                bad.append((name, w[:120] + ("..." if len(w) > 120 else ""), True, "cminx exit status %d, %s" % (p.returncode, (p.stderr or "").strip().split("\n")[-1][:160])))
+            if len(samples) < 3:
+                samples.append({"case": name, "file_chars": len(w), "exit_status": p.returncode})
+        out_ = _finish(pid, label, work, bad, unknown, q0, n0, t0, q, samples, validated=n)
+        if out_["verdict"] == vf.HOLDS:
+            out_["detail"] = "%d solver-chosen valid files with large sizes processed to completion by the real CLI" % n
+        return out_
+    return vf.FN("%s valid-file witnesses with large sizes (deep parentheses, high bracket levels, many arguments/commands, long lines) are processed to completion" % label, fn,
+                 engine="z3 picks members of size-constrained valid-file languages; each is replayed through the real CLI (witness replay, not exhaustive)",
+                 encodes=["cminx.main -> Documenter (real lexer, parser, error strategy, walker, renderer)"], symbolic="the concrete text is chosen by z3",
+                 bound="one witness per size class")
